@@ -56,7 +56,8 @@ impl Decoder for ZmqCodec {
 
     fn decode(&mut self, src: &mut BytesMut) -> Result<Option<Self::Item>, Self::Error> {
         if src.len() < self.waiting_for {
-            src.reserve(self.waiting_for - src.len());
+            // Do not reserve space for what the peer merely announced: the buffer
+            // grows with the bytes that actually arrive.
             return Ok(None);
         }
         match self.state {
